@@ -1,12 +1,13 @@
 SPECIFICATION MCSpec
 CONSTANTS Design = "repaired"
-          MaxLogs = 2
+          MaxLogs = 1
           MaxCycles = 2
           MaxAdv = 1
           MaxReads = 0
           MaxExt = 0
-          MaxFaults = 2
+          MaxFaults = 3
           MaxLoggers = 1
           MaxSwitch = 0
+          Slim = TRUE
 INVARIANTS LinesWholeInOrder FileNameRight RotatesAfterCycle SuppressedOnlyWithin RetentionExact ReadHonest NoFaultNoLoss SurvivorsSurvive OldRemoved Recovers
 CHECK_DEADLOCK FALSE
